@@ -11,7 +11,8 @@
    [r_c22]  : known class "blank-line-in-literal" (a physical line inside a literal holds only white
               space and is not exactly one blank) *)
 From Coq Require Import String Ascii Bool List Sorted.
-From CBI Require Import Lib.Data Model.C05 Spec.C05 Spec.C05f Model.C05r Proofs.C05n Proofs.C05.
+From CBI Require Import Lib.Data Model.C05 Model.C05g Gen.C05_tables Spec.C05 Spec.C05f Model.C05r
+                        Proofs.C05n Proofs.C05g Proofs.C05.
 Import ListNotations.
 Local Open Scope string_scope.
 
@@ -99,6 +100,22 @@ Proof.
   exists ls. auto.
 Qed.
 Print Assumptions C05_in_file.
+
+(* Tie to the source text: Gen/C05_tables.v is regenerated on every run from the
+   if/elif chains of c_cleaner.process and c_cleaner.logical_newline (ast,
+   fail-closed).  The cleaner step and logical_newline of the model ARE the
+   interpretation (Model/C05g.v) of those tables - for every character/buffer
+   algebra, every mode stack of any depth, every buffer and character. *)
+Theorem C05_cleaner_is_source_table :
+  forall (C B : Type) (A : alg C B) (st : list mode) (b : B) (ch : C),
+    interp A (S (List.length st)) process_table st b ch = mstep A st b ch /\
+    interp_newline A newline_table st b = logical_newline A st b.
+Proof.
+  intros C B A st b ch. split.
+  - apply mstep_is_source_table. apply PeanoNat.Nat.lt_succ_diag_r.
+  - apply newline_is_source_table.
+Qed.
+Print Assumptions C05_cleaner_is_source_table.
 
 (* The two known classes are real: without the guards the statement is false of
    the faithful model (well-formed witnesses). *)
